@@ -23,11 +23,11 @@ Print Assumptions C34_insert_fires_once.
 Theorem C34_update_fires_once : forall f ctx d t asg w d' log n,
   exec (S f) ctx d (SUpdate t asg w) = (d', log, Ok n) ->
   exists d1 tb ups,
-    (if is_none ctx then fire_stmt db (body_runner f) true (d_trigs d) t Before (EvUpdate None) d else (d, [], None))
-      = (d1, spec_stmt ctx (d_trigs d) t Before (EvUpdate None), None)
+    (if is_none ctx then fire_stmt db (body_runner f) true (d_trigs d) t Before (EvUpdate (Some (map fst asg))) d else (d, [], None))
+      = (d1, spec_stmt ctx (d_trigs d) t Before (EvUpdate (Some (map fst asg))), None)
     /\ get_table d1 t = Some tb
     /\ update_plan ctx d1 tb asg w = inr ups
-    /\ log = spec_two_pass ctx (d_trigs d) t (EvUpdate None) (images ups)
+    /\ log = spec_two_pass ctx (d_trigs d) t (EvUpdate (Some (map fst asg))) (images ups)
     /\ n = length ups.
 Proof. exact exec_update_fires_once. Qed.
 Print Assumptions C34_update_fires_once.
@@ -42,7 +42,8 @@ Print Assumptions C34_delete_fires_once.
     source rows in the order the SELECT delivers them *)
 Theorem C34_insert_select_fires_once : forall f ctx d t src star dst s d' log n vrows,
   exec (S f) ctx d (SInsertSel t src star) = (d', log, Ok n) ->
-  get_table d t = Some dst -> get_table d src = Some s -> star && bulk_eligible dst s = false ->
+  get_table d t = Some dst -> get_table d src = Some s ->
+  star && is_none (hd_error (triggers_for_table (d_trigs d) t EvInsert)) && bulk_eligible dst s = false ->
   validate_rows d dst ctx (map (map ELit) (select_order (tb_rows s))) 0 [] = inr vrows ->
   log = spec_insert ctx (d_trigs d) t vrows /\ n = length vrows.
 Proof. exact exec_insert_select_fires_once. Qed.
@@ -86,7 +87,7 @@ Print Assumptions C34_update_images_pre_post.
     table and event -- enabled, BEFORE or AFTER, trigger names distinct -- occurs once for every affected row that passes
     its gates ([gate] = UPDATE OF column changed, when both images exist, and WHEN is TRUE), and not more *)
 Theorem C34_two_pass_exactly_once : forall trigs t ev, NoDup (map t_id trigs) -> forall ctx tr imgs,
-  In tr trigs -> t_table tr = t -> event_eqb (t_event tr) ev = true -> t_enabled tr = true -> t_gran tr = GRow ->
+  In tr trigs -> t_table tr = t -> event_match (t_event tr) ev = true -> t_enabled tr = true -> t_gran tr = GRow ->
   t_timing tr = Before \/ t_timing tr = After ->
   count_id (t_id tr) (spec_two_pass ctx trigs t ev imgs) = length (filter (gate tr) imgs).
 Proof. exact two_pass_exactly_once. Qed.
@@ -111,8 +112,8 @@ Print Assumptions C34_two_pass_permutation_of_per_row.
 Theorem C34_update_order_not_per_row_refuted :
   exists d s d' log n tb ups,
     step d s = (d', log, Ok n) /\ get_table d 0 = Some tb /\ update_plan None d tb [(1%nat, EAdd (ECol 1) 1%Z)] None = inr ups
-    /\ log <> spec_per_row None (d_trigs d) 0 (EvUpdate None) (images ups)
-    /\ Permutation log (spec_per_row None (d_trigs d) 0 (EvUpdate None) (images ups)).
+    /\ log <> spec_per_row None (d_trigs d) 0 (EvUpdate (Some [1%nat])) (images ups)
+    /\ Permutation log (spec_per_row None (d_trigs d) 0 (EvUpdate (Some [1%nat])) (images ups)).
 Proof. exact update_order_not_per_row_refuted. Qed.
 Print Assumptions C34_update_order_not_per_row_refuted.
 
@@ -129,7 +130,7 @@ Theorem C34_firing_facts : forall fuel ctx d s d' log o f,
   exec fuel ctx d s = (d', log, o) -> In f log ->
   In (f_trig f) (d_trigs d)
   /\ t_table (f_trig f) = stmt_target s
-  /\ t_event (f_trig f) = stmt_event s
+  /\ event_match (t_event (f_trig f)) (stmt_event s) = true
   /\ t_enabled (f_trig f) = true
   /\ (t_timing (f_trig f) = Before \/ t_timing (f_trig f) = After)
   /\ when_fires (f_trig f) (f_old f) (f_new f) = true
@@ -137,46 +138,65 @@ Theorem C34_firing_facts : forall fuel ctx d s d' log o f,
 Proof. exact firing_facts. Qed.
 Print Assumptions C34_firing_facts.
 
-(** UPDATE OF gating: the code's intent (should_fire_update_of) is never reached *)
-Theorem C34_update_of_never_fires : forall fuel ctx d s d' log o f cols,
-  exec fuel ctx d s = (d', log, o) -> In f log -> t_event (f_trig f) <> EvUpdate (Some cols).
-Proof. exact update_of_never_fires. Qed.
-Print Assumptions C34_update_of_never_fires.
+(** UPDATE OF gating (repaired by C34-update-of-event-match; this was the known class update-of-trigger-never-fires):
+    an UPDATE OF trigger is found exactly for UPDATE statements that assign one of its columns; whether it then fires
+    for a row is [should_fire_update_of] inside [gate] of C34_two_pass_exactly_once *)
+Theorem C34_update_of_needs_assigned_column : forall fuel ctx d s d' log o f cols,
+  exec fuel ctx d s = (d', log, o) -> In f log -> t_event (f_trig f) = EvUpdate (Some cols) ->
+  exists t asg w, s = SUpdate t asg w /\ exists c, In c cols /\ In c (map fst asg).
+Proof. exact update_of_needs_assigned_column. Qed.
+Print Assumptions C34_update_of_needs_assigned_column.
 
-Theorem C34_update_of_fires_refuted :
-  exists d s tr d' n,
-    In tr (d_trigs d) /\ t_event tr = EvUpdate (Some [1%nat]) /\ t_enabled tr = true /\ t_table tr = stmt_target s
-    /\ should_fire_update_of tr [VInt 1; VInt 10] [VInt 1; VInt 11] = true
-    /\ step d s = (d', [], Ok n) /\ n = 2%nat.
-Proof. exact update_of_fires_refuted. Qed.
-Print Assumptions C34_update_of_fires_refuted.
+(** the former refutation, now positive: AFTER UPDATE OF (C1) fires for both rows of SET C1 = C1 + 1, only for the row
+    whose C1 changes when the other row is assigned its old value, and not at all for SET C0 = C0 + 100 *)
+Theorem C34_update_of_fires_when_column_changes :
+  (exists d', step Witness2.d_upof Witness.upd = (d', spec_two_pass None (d_trigs Witness2.d_upof) 0 (EvUpdate (Some [1%nat]))
+       [(Some [VInt 1; VInt 10], Some [VInt 1; VInt 11]); (Some [VInt 2; VInt 20], Some [VInt 2; VInt 21])], Ok 2)
+     /\ length (spec_two_pass None (d_trigs Witness2.d_upof) 0 (EvUpdate (Some [1%nat]))
+                  [(Some [VInt 1; VInt 10], Some [VInt 1; VInt 11]); (Some [VInt 2; VInt 20], Some [VInt 2; VInt 21])]) = 2%nat)
+  /\ (exists d', step Witness2.d_upof (SUpdate 0 [(1%nat, ECase (CCmp OpEq (ECol 0) (ELit (VInt 1%Z))) (EAdd (ECol 1) 1%Z) (ECol 1))] None)
+                  = (d', [mkFiring (Witness.tr 1 0 After (EvUpdate (Some [1%nat])) GRow None true true)
+                                   (Some [VInt 1; VInt 10]) (Some [VInt 1; VInt 11]) None], Ok 2))
+  /\ (exists d', step Witness2.d_upof (SUpdate 0 [(0%nat, EAdd (ECol 0) 100%Z)] None) = (d', [], Ok 2)).
+Proof. exact update_of_fires_when_column_changes. Qed.
+Print Assumptions C34_update_of_fires_when_column_changes.
 
-(** INSERT ... SELECT * through the bulk-transfer path fires nothing *)
-Theorem C34_bulk_path_fires_nothing : forall fuel ctx d t src dst s d' log o,
+(** INSERT ... SELECT * (repaired by C34-bulk-transfer-respects-triggers; this was the known class
+    insert-select-bulk-skips-triggers): the bulk-transfer path is entered only when the destination has no INSERT trigger,
+    so firing nothing is the specification list; with a trigger the statement takes the normal path and fires it *)
+Theorem C34_bulk_path_fires_as_specified : forall fuel ctx d t src dst s d' log o,
   exec fuel ctx d (SInsertSel t src true) = (d', log, o) ->
-  get_table d t = Some dst -> get_table d src = Some s -> bulk_eligible dst s = true -> log = [].
-Proof. exact exec_bulk_path_fires_nothing. Qed.
-Print Assumptions C34_bulk_path_fires_nothing.
+  get_table d t = Some dst -> get_table d src = Some s ->
+  is_none (hd_error (triggers_for_table (d_trigs d) t EvInsert)) && bulk_eligible dst s = true ->
+  log = [] /\ forall rows, spec_insert ctx (d_trigs d) t rows = [].
+Proof. exact exec_bulk_path_fires_as_specified. Qed.
+Print Assumptions C34_bulk_path_fires_as_specified.
 
-Theorem C34_bulk_path_skips_triggers_refuted :
-  exists d s d' n rows,
-    step d s = (d', [], Ok n) /\ n = 1%nat /\ rows = [[VInt 5; VInt 50]]
-    /\ spec_insert None (d_trigs d) 0 rows <> [].
-Proof. exact bulk_path_skips_triggers_refuted. Qed.
-Print Assumptions C34_bulk_path_skips_triggers_refuted.
+Theorem C34_insert_select_star_fires_triggers :
+  exists d', step Witness2.d_bulk (SInsertSel 0 2 true)
+             = (d', spec_insert None (d_trigs Witness2.d_bulk) 0 [[VInt 5; VInt 50]], Ok 1)
+  /\ length (spec_insert None (d_trigs Witness2.d_bulk) 0 [[VInt 5; VInt 50]]) = 1%nat.
+Proof. exact insert_select_star_fires_triggers. Qed.
+Print Assumptions C34_insert_select_star_fires_triggers.
 
-(** a statement-level trigger with a WHEN condition makes the statement fail *)
-Theorem C34_stmt_trigger_with_when_fails : forall f d t asg w tr c,
-  In tr (d_trigs d) -> t_table tr = t -> t_event tr = EvUpdate None -> t_timing tr = Before ->
-  t_gran tr = GStmt -> t_enabled tr = true -> t_when tr = Some c ->
-  exists d' log cz, exec (S f) None d (SUpdate t asg w) = (d', log, Err AtBeforeStmt cz 0).
-Proof. exact stmt_trigger_with_when_fails_update. Qed.
-Print Assumptions C34_stmt_trigger_with_when_fails.
+(** WHEN on statement-level triggers (repaired by C34-statement-trigger-when; this was the known class
+    statement-trigger-when-errors): the condition is evaluated against an empty row, TRUE fires, anything else does not *)
+Theorem C34_stmt_when_evaluated_on_empty_row : forall c,
+  eval_when c None None =
+  match eval_cond (mkEnv (Some []) (Some (None, None))) c with
+  | RBool (Some b) => Some b | RBool None => Some false | _ => None
+  end.
+Proof. exact eval_when_no_row. Qed.
+Print Assumptions C34_stmt_when_evaluated_on_empty_row.
 
-Theorem C34_stmt_trigger_when_refuted :
-  exists d s d' log c m, step d s = (d', log, Err AtAfterStmt c m) /\ observe d' <> observe d.
-Proof. exact stmt_trigger_when_refuted. Qed.
-Print Assumptions C34_stmt_trigger_when_refuted.
+Theorem C34_stmt_trigger_when_gates :
+  (exists d' f, step Witness2.d_swhen (SDelete 0 (Some (CCmp OpEq (ECol 0) (ELit (VInt 1%Z))))) = (d', [f], Ok 1)
+                /\ f_old f = None /\ f_new f = None /\ t_gran (f_trig f) = GStmt)
+  /\ (exists d', step (mkDb [Witness.t0; Witness.aud]
+                          [Witness.tr 1 0 After EvDelete GStmt (Some (CCmp OpEq (ELit (VInt 1%Z)) (ELit (VInt 2%Z)))) false false])
+                     (SDelete 0 (Some (CCmp OpEq (ECol 0) (ELit (VInt 1%Z))))) = (d', [], Ok 1)).
+Proof. exact stmt_trigger_when_gates. Qed.
+Print Assumptions C34_stmt_trigger_when_gates.
 
 (** a fact about the code, outside the property's wording (which speaks of the statement's own table): rows removed by
     a referential action fire no trigger of the child table *)
